@@ -111,6 +111,6 @@ CLAIM = {
     "level": "other",
     "design_ref": "DESIGN.md section 4 C05",
     "technique": "static: transcript-schedule facts on extracted regular expressions; symbolic weights of commitments; base provenance by term identity",
-    "text": "Decides that every statement component is bound: commitments and their count are absorbed, commitments and constants are weighted in the check, separators and user data are on the caller's transcript, and the bases are the caller's.",
+    "text": "Decides that every statement component is bound: commitments and their count are absorbed, commitments and constants are weighted in the check, separators and user data are on the caller's transcript, and the bases are the caller's; the operators that build a constraint from the caller's expression keep every coefficient (C15 R15.1 by reference).",
     "note": "trusted: Merlin; soundness of the reference equation",
 }
